@@ -559,6 +559,58 @@ func (u *unitCtx) blockItem(it Item) {
 	u.out = append(u.out, b.String())
 }
 
+// condItem: the condition of the if statement of function it.Func whose source text contains it.Anchor (the it.Occur-th such
+// condition, or the only one when Occur is 0), as a Bool-valued function of the variables / field paths it mentions
+// (parameters sorted by their source text).
+func (u *unitCtx) condItem(it Item) {
+	fd := u.lookupFunc(it.Func)
+	if fd == nil {
+		u.fail(nil, "cond %s: function %s not found in package %s", it.Name, it.Func, u.p.path)
+	}
+	var hits []ast.Expr
+	ast.Inspect(fd.Body, func(n ast.Node) bool {
+		if is, ok := n.(*ast.IfStmt); ok && strings.Contains(exprText(u.l.fset, is.Cond), it.Anchor) {
+			hits = append(hits, is.Cond)
+		}
+		return true
+	})
+	var cond ast.Expr
+	switch {
+	case len(hits) == 0:
+		u.fail(fd, "cond %s: no if condition of %s mentions %q (anchor not found)", it.Name, it.Func, it.Anchor)
+	case it.Occur == 0 && len(hits) != 1:
+		u.fail(fd, "cond %s: %d if conditions of %s mention %q, expected exactly one", it.Name, len(hits), it.Func, it.Anchor)
+	case it.Occur > len(hits):
+		u.fail(fd, "cond %s: only %d if conditions of %s mention %q", it.Name, len(hits), it.Func, it.Anchor)
+	case it.Occur == 0:
+		cond = hits[0]
+	default:
+		cond = hits[it.Occur-1]
+	}
+	c := &fnCtx{u: u, info: u.p.info, names: map[types.Object]string{}, used: map[string]bool{},
+		ptrs: map[types.Object]bool{}, mutSet: map[types.Object]bool{}, block: true,
+		inside: map[types.Object]bool{}, flats: map[string]*flatVar{}}
+	text := c.expr(cond)
+	var keys []string
+	for k := range c.flats {
+		keys = append(keys, k)
+	}
+	sort.Strings(keys)
+	var params []string
+	for _, k := range keys {
+		params = append(params, fmt.Sprintf("(%s : %s)", c.flats[k].name, u.leanType(fd, c.flats[k].typ)))
+	}
+	var b strings.Builder
+	fmt.Fprintf(&b, "/-- Go (%s, inside `%s`): the condition `if %s` -/\n", relFile(u, fd), it.Func,
+		strings.ReplaceAll(exprText(u.l.fset, cond), "-/", "- /"))
+	if c.partial {
+		fmt.Fprintf(&b, "def %s %s : Option Bool := do\n  return %s\n", leanIdent(it.Name), strings.Join(params, " "), text)
+	} else {
+		fmt.Fprintf(&b, "def %s %s : Bool :=\n  %s\n", leanIdent(it.Name), strings.Join(params, " "), text)
+	}
+	u.out = append(u.out, b.String())
+}
+
 // snapshot: undo whatever a trial translation declared
 func (u *unitCtx) snapshot() func() {
 	nout := len(u.out)
@@ -677,6 +729,32 @@ func translateUnit(l *loader, unit *Unit) (text string, err error) {
 			u.packageVar(nil, v)
 		case "block":
 			u.blockItem(it)
+		case "const":
+			obj := p.pkg.Scope().Lookup(it.Name)
+			cn, ok := obj.(*types.Const)
+			if !ok {
+				u.fail(nil, "constant %s not found in package %s", it.Name, p.path)
+			}
+			c := &fnCtx{u: u, info: p.info}
+			t := cn.Type()
+			lt := ""
+			if b, isb := t.Underlying().(*types.Basic); isb && b.Info()&types.IsUntyped != 0 {
+				// an untyped integer constant: a natural number when it is not negative
+				if b.Kind() != types.UntypedInt && b.Kind() != types.UntypedRune {
+					u.fail(nil, "untyped constant %s of kind %s", it.Name, b.Name())
+				}
+				if strings.HasPrefix(cn.Val().ExactString(), "-") {
+					t, lt = types.Typ[types.Int64], "Int"
+				} else {
+					t, lt = types.Typ[types.Uint64], "Nat"
+				}
+			} else {
+				lt = u.leanType(nil, t)
+			}
+			v, _ := c.constant(&ast.BasicLit{}, types.TypeAndValue{Type: t, Value: cn.Val()})
+			u.out = append(u.out, fmt.Sprintf("/-- Go: `const %s` (type %s; value computed by go/types) -/\ndef %s : %s := %s\n", it.Name, cn.Type(), leanIdent(it.Name), lt, v))
+		case "cond":
+			u.condItem(it)
 		case "methodset":
 			// every method of the named type must be listed (and exist): a new method is code that reaches the state
 			// without being translated, so the tie would silently cover less than it says
